@@ -202,6 +202,35 @@ func covTable(es []covEntry) coverage.Table {
 	return t
 }
 
+// probeRunes lists the code points at which the installed cmap is probed: the
+// generated code points, and for the byte table (stored under the Macintosh
+// key, so its codes are looked up at the Unicode code points of Mac Roman,
+// some beyond 255) 0..255 plus every mapped code point of the subtable.
+func (fs *fontSpec) probeRunes(sub cmap.Subtable) []int {
+	var runes []int
+	if fs.cmapFmt == "f0" {
+		for r := 0; r < 256; r++ {
+			runes = append(runes, r)
+		}
+		_, hi := sub.CodeRange()
+		for r := rune(256); r <= hi && r < 0x10000; r++ {
+			if sub.Lookup(r) != 0 {
+				runes = append(runes, int(r))
+			}
+		}
+		return runes
+	}
+	seen := map[int]bool{}
+	for _, e := range fs.cmap {
+		if !seen[e.r] {
+			seen[e.r] = true
+			runes = append(runes, e.r)
+		}
+	}
+	sort.Ints(runes)
+	return runes
+}
+
 // cmapSx reads the installed cmap back through the public API (GetBest,
 // CodeRange, Lookup) at the generated code points: these entries are what the
 // implementation sees.
@@ -214,21 +243,7 @@ func (fs *fontSpec) cmapSx(f *sfnt.Font) vlib.Sx {
 		return vlib.Atom("none")
 	}
 	lo, hi := sub.CodeRange()
-	var runes []int
-	if fs.cmapFmt == "f0" {
-		for r := 0; r < 256; r++ {
-			runes = append(runes, r)
-		}
-	} else {
-		seen := map[int]bool{}
-		for _, e := range fs.cmap {
-			if !seen[e.r] {
-				seen[e.r] = true
-				runes = append(runes, e.r)
-			}
-		}
-		sort.Ints(runes)
-	}
+	runes := fs.probeRunes(sub)
 	l := vlib.List{}
 	for _, r := range runes {
 		if rune(r) < lo || rune(r) > hi {
@@ -470,9 +485,9 @@ func (fs *fontSpec) provenance(f *sfnt.Font, res, eff []string) string {
 	}
 	cmapNames := make([][]string, n)
 	if sub, _ := f.CMapTable.GetBest(); f.CMapTable != nil && sub != nil {
-		for _, e := range fs.cmap {
-			if g := int(sub.Lookup(rune(e.r))); g > 0 && g < n {
-				cmapNames[g] = append(cmapNames[g], names.FromUnicode(string(rune(e.r))))
+		for _, r := range fs.probeRunes(sub) {
+			if g := int(sub.Lookup(rune(r))); g > 0 && g < n {
+				cmapNames[g] = append(cmapNames[g], names.FromUnicode(string(rune(r))))
 			}
 		}
 	}
@@ -589,14 +604,14 @@ func (fs *fontSpec) exec() (line, impl, fail, sig string) {
 		held[s] = i
 	}
 	if sub, _ := f.CMapTable.GetBest(); f.CMapTable != nil && sub != nil {
-		for _, e := range fs.cmap {
-			g := int(sub.Lookup(rune(e.r)))
+		for _, r := range fs.probeRunes(sub) {
+			g := int(sub.Lookup(rune(r)))
 			if g <= 0 || g >= fs.n || !ornRe.MatchString(res[g]) || res[g] == eff[g] {
 				continue
 			}
-			nm := names.FromUnicode(string(rune(e.r)))
+			nm := names.FromUnicode(string(rune(r)))
 			if h, ok := held[nm]; nm != "" && (!ok || h == g) {
-				return line, impl, fmt.Sprintf("glyph %d got placeholder %q although the cmap name %q (U+%04X) is free", g, res[g], nm, e.r), "c20-cmap-name-not-used"
+				return line, impl, fmt.Sprintf("glyph %d got placeholder %q although the cmap name %q (U+%04X) is free", g, res[g], nm, r), "c20-cmap-name-not-used"
 			}
 		}
 	}
